@@ -237,3 +237,131 @@ Example lx_var_set_accepted : exists f',
                 [SVar (VarU [118] lx_l) (EInt 1) lx_l;
                  SSet (VarU [118] lx_l) (EScoped (EUnscoped [120] lx_l) [121] lx_l) lx_l] lx_l] []) = CkOk f'.
 Proof. eexists. vm_compute. reflexivity. Qed.
+
+(* ================= LOCALITY, semantic half: the lazy interpreter =================
+   Vocabulary (Spec/PureLv.v)
+     pure_lv st lv             the lazy value lv, read through the thunk store st, contains no scoped-variable read:
+                               no `LScoped`, and every store location in it is forced already or holds an unforced
+                               body that is again pure and mentions earlier locations only.  (The lazy interpreter
+                               binds EVERY unscoped variable to a store location, so "holds a value" means this.)
+     locals_ok st env l        the run-time frames l have the shape of the static environment env, and every
+                               variable whose bit is true is IMMUTABLE and bound to a pure lazy value
+     with_scoped sc ls         ls with the scoped store replaced by sc;  omap_scoped sc r: the outcome r with the
+                               scoped store of its final state replaced by sc
+     sext st st'               the store only grew, thunks only changed by being forced
+     quiet ls ls'              scoped store, deferred edge/attribute/print statements and debug table unchanged
+     cells_unforced cells      every scoped-variable cell is still SVUnforced (nothing has been forced)
+     lexec_matches             the execution phase of `execute_lazy` (all stanza/match blocks, before evaluation)
+   "m (with_scoped sc ls) p = omap_scoped sc (m ls p)" for EVERY sc says that m neither reads nor writes the scoped
+   store: whatever cells one puts there, the outcome — value, error, panic, fuel exhaustion, polls — is the same and
+   the cells come out as they went in. *)
+From TSG Require Import Spec.PureLv Proofs.LocalPure Proofs.LocalEval Proofs.LocalLeval Proofs.LocalHoare Proofs.LocalStmt Proofs.LocalRun.
+
+(* forcing a pure lazy value (LazyValue::evaluate / LazyStore::evaluate) *)
+Theorem pure_value_never_forces : forall t fl call fuel lv ls p,
+  pure_lv (l_store ls) lv ->
+  (forall sc, eval_lv t fl call fuel lv (with_scoped sc ls) p = omap_scoped sc (eval_lv t fl call fuel lv ls p)) /\
+  (forall v ls' p', eval_lv t fl call fuel lv ls p = Ok (v, ls', p') ->
+     sext (l_store ls) (l_store ls') /\ quiet ls ls' /\ l_locals ls' = l_locals ls).
+Proof. intros t fl call fuel lv ls p H. exact (eval_lv_pure t fl call fuel lv (l_locals ls) ls p (conj H eq_refl)). Qed.
+
+(* evaluate_eager (scan subject, if condition, for list, comprehension list) on an eager_ok expression, in a state
+   that satisfies the invariant: independent of the scoped store, which it leaves alone; the invariant is kept *)
+Theorem local_never_forces : forall t fl glob call G,
+  (forall x, G x = true -> exists v, globals_get glob x = Some v) ->
+  forall fuel le e env ls p,
+  eager_ok G env e = true -> locals_ok (l_store ls) env (l_locals ls) ->
+  (forall sc, leager t fl glob call fuel le e (with_scoped sc ls) p = omap_scoped sc (leager t fl glob call fuel le e ls p)) /\
+  (forall v ls' p', leager t fl glob call fuel le e ls p = Ok (v, ls', p') ->
+     sext (l_store ls) (l_store ls') /\ quiet ls ls' /\ l_locals ls' = l_locals ls /\ locals_ok (l_store ls') env (l_locals ls')).
+Proof.
+  intros t fl glob call G Hglob fuel le e env ls p He Hok.
+  destruct (leager_ok t fl glob call G Hglob fuel le e env (l_locals ls) He ls p (conj Hok eq_refl)) as [C R]. split; [exact C|].
+  intros v ls' p' E. destruct (R _ _ _ E) as (S1 & Q1 & H1 & H2). rewrite H2. auto.
+Qed.
+
+(* evaluate_lazy on ANY expression of a checked statement (its comprehension lists are eager_ok): the same, and the
+   lazy value returned is pure whenever the expression itself is eager_ok *)
+Theorem checked_expr_never_forces : forall t fl glob call G,
+  (forall x, G x = true -> exists v, globals_get glob x = Some v) ->
+  forall fuel le e env ls p,
+  expr_eok G env e = true -> locals_ok (l_store ls) env (l_locals ls) ->
+  (forall sc, leval t fl glob call fuel le e (with_scoped sc ls) p = omap_scoped sc (leval t fl glob call fuel le e ls p)) /\
+  (forall lv ls' p', leval t fl glob call fuel le e ls p = Ok (lv, ls', p') ->
+     sext (l_store ls) (l_store ls') /\ quiet ls ls' /\ l_locals ls' = l_locals ls /\ locals_ok (l_store ls') env (l_locals ls') /\
+     (eager_ok G env e = true -> pure_lv (l_store ls') lv)).
+Proof.
+  intros t fl glob call G Hglob fuel le e env ls p He Hok.
+  destruct (leval_ok t fl glob call G Hglob fuel le e env (l_locals ls) He ls p (conj Hok eq_refl)) as [C R]. split; [exact C|].
+  intros v ls' p' E. destruct (R _ _ _ E) as (S1 & Q1 & [H1 H2] & H3). rewrite H2. auto.
+Qed.
+
+(* THE INVARIANT: executing a statement whose eager positions are eager_ok (what the checker guarantees) keeps
+   "every variable flagged local is immutable and bound to a pure lazy value", for the static environment the checker
+   continues with; the store only grows and no scoped cell is forced *)
+Theorem local_invariant_preserved : forall (rx : Type) t fl cfg glob (regexes : list rx) find call G,
+  (forall x, G x = true -> exists v, globals_get glob x = Some v) -> shorthands_plain fl = true ->
+  forall fuel le s env ls p u ls' p',
+  stmt_eok G env s = true -> locals_ok (l_store ls) env (l_locals ls) ->
+  lexec_stmt t fl cfg glob regexes find call fuel le s ls p = Ok (u, ls', p') ->
+  locals_ok (l_store ls') (stmt_env G env s) (l_locals ls') /\ sext (l_store ls) (l_store ls') /\
+  (cells_unforced (l_scoped ls) -> cells_unforced (l_scoped ls')).
+Proof.
+  intros rx t fl cfg glob regexes find call G Hglob Hplain fuel le s env ls p u ls' p' Hs Hok E.
+  destruct (ho_lexec_stmt t fl cfg glob regexes find call G Hglob Hplain fuel le s env Hs ls p u ls' p' Hok E) as (S1 & U1 & H1). auto.
+Qed.
+
+(* whole execution phase of a CHECKED file (shorthand bodies without comprehensions: K4): when the evaluation
+   phase starts, no scoped-variable cell has been forced *)
+Theorem checked_exec_phase_forces_nothing : forall (rx : Type) q f fl t cfg g0 glob (regexes : list rx) find call fuel ms gr p u ls' p',
+  check_file q f = CkOk fl -> shorthands_plain fl = true ->
+  check_globals (f_globals fl) g0 = Ok glob ->
+  lexec_matches t fl cfg glob regexes find call fuel ms (linit gr) p = Ok (u, ls', p') ->
+  cells_unforced (l_scoped ls').
+Proof.
+  intros rx q f fl t cfg g0 glob regexes find call fuel ms gr p u ls' p' Hck Hplain Hg E.
+  eapply (exec_phase_unforced t fl cfg glob regexes find call (is_global fl)); [exact (is_global_glob _ _ _ Hg)|exact Hplain| |exact E].
+  exact (proj1 (checked_eager_positions_local _ _ _ Hck)).
+Qed.
+
+(* ---- Examples ---- *)
+(* a state: x (bit true) bound to an unforced thunk [1]; m (a `var`, bit false) bound to a thunk that reads a scoped
+   variable; the cell of that scoped variable is being forced *)
+Definition lz_tree : tree := {| t_src := []; t_nodes := [] |}.
+Definition lz_file : file := {| f_globals := []; f_inherited := []; f_shorthands := []; f_stanzas := [] |}.
+Definition lz_call : ident -> graph -> list value -> res (value * graph) := fun _ _ _ => Err EUndefinedFunction.
+Definition lz_ctx : stmt_ctx := {| sc_stmt := (0, 0); sc_stanza := (0, 0); sc_node := 0 |}.
+Definition lz_le : llenv := {| ll_match := []; ll_full := 0; ll_caps := []; ll_ctx := lz_ctx |}.
+Definition lz_env : lenv := [[([120], true); ([109], false)]].
+Definition lz_state (cells : list (ident * scoped_values)) : lstate :=
+  {| l_graph := []; l_locals := [[([120], (LVar 0, false)); ([109], (LVar 1, true))]];
+     l_store := [{| th_state := TUnforced (LList [LValue (VInt 1)]); th_dbg := lz_ctx |};
+                 {| th_state := TUnforced (LScoped (LValue (VSyn 0)) [121]); th_dbg := lz_ctx |}];
+     l_scoped := cells; l_edges := []; l_attrs := []; l_prints := []; l_params := []; l_prev := [] |}.
+Example lz_invariant : forall cells, locals_ok (l_store (lz_state cells)) lz_env (l_locals (lz_state cells)).
+Proof.
+  intros cells. constructor; [|constructor]. constructor; [|constructor; [|constructor]].
+  - split; [reflexivity|]. intros _. split; [reflexivity|]. apply pure_lv_var.
+    eapply PLoc_unforced; [reflexivity|reflexivity|reflexivity|intros l []|intros l []].
+  - split; [reflexivity|]. intros X. discriminate.
+Qed.
+(* the eager evaluation of [x, x] forces the thunk of x and does not look at the cell being forced *)
+Example lz_eager_runs : forall cells, exists ls',
+  leager lz_tree lz_file [[]] lz_call 10 lz_le (EList [EUnscoped [120] (0, 0); EUnscoped [120] (0, 0)]) (lz_state cells) (polls0 None)
+  = Ok (VList [VList [VInt 1]; VList [VInt 1]], ls', {| p_count := 5; p_trace := [6; 6; 6; 6; 6]; p_budget := None |})
+  /\ l_scoped ls' = cells /\ nth_error (l_store ls') 0 = Some {| th_state := TForced (VList [VInt 1]); th_dbg := lz_ctx |}.
+Proof. intros cells. eexists. split; [vm_compute; reflexivity|split; reflexivity]. Qed.
+Example lz_theorem_applies : forall cells sc,
+  leager lz_tree lz_file [[]] lz_call 10 lz_le (EUnscoped [120] (0, 0)) (with_scoped sc (lz_state cells)) (polls0 None) =
+  omap_scoped sc (leager lz_tree lz_file [[]] lz_call 10 lz_le (EUnscoped [120] (0, 0)) (lz_state cells) (polls0 None)).
+Proof.
+  intros cells sc.
+  exact (proj1 (local_never_forces lz_tree lz_file [[]] lz_call (fun _ => false) (fun x H => ltac:(discriminate H))
+                  10 lz_le (EUnscoped [120] (0, 0)) lz_env (lz_state cells) (polls0 None) eq_refl (lz_invariant cells)) sc).
+Qed.
+(* the variable with bit false is not eager_ok, and evaluating it eagerly DOES depend on the scoped store *)
+Example lz_nonlocal_depends :
+  eager_ok (fun _ => false) lz_env (EUnscoped [109] (0, 0)) = false /\
+  leager lz_tree lz_file [[]] lz_call 10 lz_le (EUnscoped [109] (0, 0)) (lz_state []) (polls0 None) <>
+  leager lz_tree lz_file [[]] lz_call 10 lz_le (EUnscoped [109] (0, 0)) (lz_state [([121], SVForcing)]) (polls0 None).
+Proof. split; [reflexivity|]. vm_compute. discriminate. Qed.
